@@ -11,18 +11,25 @@ RULE = ("cases = Scores x configuration x metric x ascending target list (grid k
 EXPLANATION = ("Theorems in SA/Theorems/C02.lean prove the bracket/round-trip/coherence clauses for the model "
                "(see obligations in this file; clauses not yet proved are listed under statements_not_proved and "
                "are evaluated on every case). The correspondence run compares the model's thresholds with "
-               "threshold_at_* (linear: tolerant; lower/higher: exact away from float-rounding discontinuities) "
+               "threshold_at_* (linear: tolerant AND within 4 x the bound of thresholdAt_fl_error / thresholdAt_fl_error_lip, "
+               "SA/Theorems/FloatBounds.lean, evaluated by the driver op flbound with u = 2^-53; lower/higher: exact away from "
+               "float-rounding discontinuities) "
                "and evaluates the Lean spec predicates on the implementation's own matrices at, just below and "
                "just above its returned thresholds.")
 TRUSTED_BASE = ["Lean 4.33 kernel", "axioms propext/Classical.choice/Quot.sound only",
                 "hand-written model SA/Model/Threshold.lean tied to /repo by this correspondence run",
-                "np.nextafter as an oracle", "harness and driver parsing; tolerance table of DESIGN 4.2"]
-ASSUMPTIONS = ["finite float scores of moderate magnitude", "float rounding of la*a+(1-la)*b is outside the proof"]
+                "np.nextafter as an oracle", "harness and driver parsing; tolerance table of DESIGN 4.2",
+                "IEEE 754 double arithmetic satisfies the standard model |fl x - x| <= 2^-53 |x| (no underflow / overflow: inputs "
+                "checked to lie in [2^-200, 2^200])"]
+ASSUMPTIONS = ["finite float scores of moderate magnitude",
+               "float rounding of the linear path is bounded by theorems under the standard model of floating-point arithmetic "
+               "(operation order of the pinned code); the comparison allows 4 x the bound so that algebraically equivalent "
+               "rewrites of the formulas are not reported"]
 CLAUSES = ["bracket", "tiefree", "member", "order", "between", "convex", "monotone"]
 
 
 def n_cases(tier):
-    return 600 if tier == "quick" else 40000 + len(thr_common.EXH_THR)
+    return 1400 if tier == "quick" else 40000 + len(thr_common.EXH_THR)
 
 
 def gen_one(rng, i, tier):
